@@ -546,7 +546,7 @@ fn identifier_units() -> impl Strategy<Value = Vec<Unit>> {
 }
 
 fn strategy(tier: Tier) -> impl Strategy<Value = Case> {
-    let maxp = tier.pick(60, 200);
+    let maxp = tier.pick(200, 400);
     let maxs = tier.pick(30, 100);
     prop_oneof![
         3 => (prop_oneof![3 => ann_req().prop_map(Some), 1 => Just(None)], proptest::collection::vec(id20(), 1..20))
